@@ -29,6 +29,11 @@ def classify_direction_value(slots, leaf_info_dirs):
         if len(pref) == 1 and all(n in leaf_info_dirs for n in names):
             idx = [int(re.search(r"\[(\d+)\]$", n).group(1)) for n in names]
             if idx == list(range(len(idx))):
+                widened = [s for s in slots if isinstance(s, tuple) and s and s[0] == "cast" and len(s) > 3
+                           and errdom.MANT.get(s[3], 99) < errdom.MANT.get(s[1], 0)]
+                if widened:
+                    return "other", ("copies the components of a %s direction into %s without re-normalising: the length is one only to "
+                                     "the precision of %s, far outside four ulps of %s" % (widened[0][3], widened[0][1], widened[0][3], widened[0][1]))
                 return "copy", list(pref)[0]
         return "other", "stores raw inputs %s without normalising" % names
     # normalised: g(q > 0, c_i / sqrt(q), 0)
